@@ -808,6 +808,44 @@ def lock_graph(mods):
     return sorted(edges), sorted(recv)
 
 
+PROTECTED = {("comm.py", "CommHandler"): "_channels_lock", ("dev.py", "Device"): "_channels_lock",
+             ("nxscope.py", "NxscopeHandler"): "_queue_lock"}
+
+
+def unguarded_access(mods):
+    """"Class.method:field" for every access to a lock-protected field outside a `with self.<lock>` block.
+    A field is lock-protected when some method of the class touches it under the lock (methods are not
+    protected fields)."""
+    out = []
+    for (rel, cls), lock in sorted(PROTECTED.items()):
+        m = mods.get(rel) or Module(rel)
+        c = m.klass(cls)
+        methods = {fn.name for fn in c.body if isinstance(fn, ast.FunctionDef)}
+
+        def walk(node, held, acc):
+            if isinstance(node, ast.With) and any(
+                    isinstance(i.context_expr, ast.Attribute) and i.context_expr.attr == lock for i in node.items):
+                for st in node.body:
+                    walk(st, True, acc)
+                return
+            if isinstance(node, ast.Attribute) and isinstance(node.value, ast.Name) and node.value.id == "self":
+                acc.append((node.attr, held))
+            for ch in ast.iter_child_nodes(node):
+                walk(ch, held, acc)
+
+        per = {}
+        for fn in c.body:
+            if isinstance(fn, ast.FunctionDef):
+                acc = []
+                walk(fn, False, acc)
+                per[fn.name] = acc
+        protected = {a for acc in per.values() for a, h in acc if h and a not in methods and a != lock}
+        for name, acc in per.items():
+            for a in sorted({a for a, h in acc if not h and a in protected}):
+                out.append("%s.%s:%s" % (cls, name, a))
+    return sorted(out)
+
+
 def dummy_default_alloc(mods):
     """How DummyDev.__init__ obtains the default channel list: 'true' if every
     instance gets a fresh copy (copy.deepcopy(...) / a factory call), 'false' if
@@ -842,6 +880,8 @@ def emit_misc(mods, c, status):
     out.append("Definition lock_edges : list (string * string) := [%s]." % "; ".join(
         "(%s, %s)" % (coq_string(a), coq_string(b)) for a, b in edges))
     out.append("Definition recv_path_locks : list string := [%s]." % "; ".join(coq_string(x) for x in recv))
+    out.append("Definition unguarded_access : list string := [%s]." % "; ".join(
+        coq_string(x) for x in unguarded_access(mods)))
     out.append(coq_const("chinfo_retries", c["chinfo_retries"]))
     out.append(coq_const("connect_timeout", c["connect_timeout"]))
     for nm in ("mask_dtype", "mask_critical", "mask_res", "chan_rw_a", "chan_rw_b"):
